@@ -53,6 +53,11 @@ def gen(c):
 
 def run(c):
     c.mc_bg('MC_Prng', min_states=1500)
+    # unbounded, by SMT (Apalache): the 32-bit counter field decides "16384 bytes since the last reseed" exactly,
+    # for every request size and the real limit
+    c.apalache_bg('PrngInd', 'Init', 'IndInv', 0)
+    c.apalache_bg('PrngInd', 'IndInv', 'IndInv', 1)
+    c.apalache_bg('PrngInd', 'Init', 'BadInv', 2, must_fail=True)
     c.mc_bg('MC_Sponge', 'MC_SpongeDuplex', disabled=('DoCopy', 'DoSqueeze2'))
     c.assumptions += ['the system source is substituted at link time (-Wl,--wrap=ascon_trng_generate): the tape of [ok, 32 bytes] draws is part of the trace; TLC recomputes the whole state evolution from it',
                       'the symbolic model scales the 16384-byte reseed limit to 24 bytes; the real limit is reached by positioning the counter field and by honest 17 x 1024-byte fetches',
